@@ -39,6 +39,9 @@ func PlainText(f APIHandler) APIHandler {
 		case []byte:
 			w.WriteHeader(code)
 			w.Write(d)
+		case nil:
+			// a handler that has nothing to say (/debug/freememory, /debug/setblockrate)
+			w.WriteHeader(code)
 		default:
 			panic(fmt.Sprintf("unknown response type %T", data))
 		}
